@@ -393,6 +393,15 @@ def run_wrap(ctx):
 
 # ------------------------------------------------------------------------------------------------ offScale / interp / filter
 
+def offscale_expected(nm, w):
+    """the documented meaning of the back-up modes the MODE map uses (independent of the code)"""
+    if nm == 'ALL': return 0
+    if nm == 'NONE': return (w > 0) - (w < 0)
+    if nm == 'ONCE': return -1 if w < -1 else 1 if w > 1 else 0
+    if nm == 'TWICE': return -1 if w < -2 else 1 if w > 2 else 0
+    return None
+
+
 def run_offscale(ctx):
     PRESCfg, Plot, Coord = _mods()
     bus = list(BACKUPS.values()) + [(-3, 2), (0, 5), (-4, 0), (2, 2), (-1, -1), (3, -3)]
@@ -413,11 +422,7 @@ def run_offscale(ctx):
         ctx.count('oracle_cases')
         # independent statement of the documented back-up modes
         nm = named.get(b)
-        exp = None
-        if nm == 'ALL': exp = 0
-        elif nm == 'NONE': exp = (w > 0) - (w < 0)
-        elif nm == 'ONCE': exp = -1 if w < -1 else 1 if w > 1 else 0
-        elif nm == 'TWICE': exp = -1 if w < -2 else 1 if w > 2 else 0
+        exp = offscale_expected(nm, w)
         if exp is not None and o != exp:
             ctx.fail(case, f'offScale({w}) = {o} for back-up {nm}, expected {exp}')
         elif o not in (-1, 0, 1) or (o == -1 and w >= 0) or (o == 1 and w <= 0):
@@ -562,7 +567,10 @@ def replay(ctx, rec):
         # re-run the small deterministic streams; the failing case is part of them or is re-evaluated directly
         if op == 'offscale':
             t = PRESCfg.LineTransLin(0.0, 1.0, 0.0, 1.0, tuple(case['bu']))
-            return True, f'offScale({case["w"]}) = {t.offScale(case["w"])} now (recorded: {rec.get("detail")})'
+            o, w = t.offScale(case['w']), case['w']
+            exp = offscale_expected({v: k for k, v in BACKUPS.items()}.get(tuple(case['bu'])), w)
+            good = (o == exp) if exp is not None else (o in (-1, 0, 1) and not (o == -1 and w >= 0) and not (o == 1 and w <= 0))
+            return good, f'offScale({w}) = {o} for back-up {tuple(case["bu"])}' + ('' if good else f', expected {exp}')
         if op == 'filter':
             P = Plot.Plot.__new__(Plot.Plot); M = Plot.Plot.MAX_BACKUP_TRACK_CROSSING_LINES; n = case['n']
             try:
@@ -588,6 +596,8 @@ def replay(ctx, rec):
         return c19_svg.replay_svg(ctx, case)
     else:
         return True, 'nothing to replay (no concrete failing input was recorded)'
-    if len(ctx.failures) > n0:
-        return False, ctx.failures[-1]['detail']
-    return True, detail
+    new = [f for f in ctx.failures[n0:] if f['finding'] is None]
+    if new:
+        return False, new[-1]['detail']
+    known = sorted({f['finding'] for f in ctx.failures[n0:] if f['finding']})
+    return True, detail + (f' (known finding on this case: {", ".join(known)})' if known else '')
